@@ -273,6 +273,15 @@ func origins(v ssa.Value) []Origin {
 					out = append(out, Origin{"other", x})
 					return
 				case *ssa.FieldAddr:
+					// a field of a LOCAL struct variable that only groups locals (`var aff struct{cmd …; key string}`): the
+					// values stored into that field anywhere (flow-insensitively), or its zero value
+					if sts, ok := localStructFieldStores(a); ok {
+						out = append(out, Origin{"zero", x})
+						for _, st := range sts {
+							walk(st.Val)
+						}
+						return
+					}
 					out = append(out, Origin{"fieldload", x})
 					return
 				case *ssa.IndexAddr:
@@ -526,4 +535,73 @@ func lenZeroAtom(name string, lenPred vpred) atomDef {
 		}
 		return false, false
 	}}
+}
+
+// localStructFieldStores: fa addresses a field of a struct variable allocated by this function (or captured from the
+// enclosing one) whose address is used for nothing but field accesses and closure captures; returns every store to
+// that field, in the function and the closures that capture the variable.
+func localStructFieldStores(fa *ssa.FieldAddr) ([]*ssa.Store, bool) {
+	var root *ssa.Alloc
+	switch x := fa.X.(type) {
+	case *ssa.Alloc:
+		root = x
+	case *ssa.FreeVar:
+		if b := freeVarBinding(x); b != nil {
+			root, _ = b.(*ssa.Alloc)
+		}
+	}
+	if root == nil {
+		return nil, false
+	}
+	if _, isStruct := root.Type().(*types.Pointer).Elem().Underlying().(*types.Struct); !isStruct {
+		return nil, false
+	}
+	var out []*ssa.Store
+	ok := true
+	var visit func(base ssa.Value, depth int)
+	visit = func(base ssa.Value, depth int) {
+		refs := base.Referrers()
+		if refs == nil || depth > 3 {
+			ok = false
+			return
+		}
+		for _, r := range *refs {
+			switch y := r.(type) {
+			case *ssa.FieldAddr:
+				if y.X != base {
+					ok = false
+					continue
+				}
+				frefs := y.Referrers()
+				if frefs == nil {
+					continue
+				}
+				for _, fr := range *frefs {
+					switch z := fr.(type) {
+					case *ssa.Store:
+						if z.Addr != ssa.Value(y) {
+							ok = false // the field's address is stored somewhere
+						} else if y.Field == fa.Field {
+							out = append(out, z)
+						}
+					case *ssa.UnOp:
+					case *ssa.DebugRef:
+					default:
+						ok = false // the field's address escapes (call argument, …)
+					}
+				}
+			case *ssa.MakeClosure:
+				for i, b := range y.Bindings {
+					if b == base {
+						visit(y.Fn.(*ssa.Function).FreeVars[i], depth+1)
+					}
+				}
+			case *ssa.DebugRef:
+			default:
+				ok = false // the struct itself is copied, passed on or overwritten as a whole
+			}
+		}
+	}
+	visit(root, 0)
+	return out, ok
 }
